@@ -231,6 +231,35 @@ def check_line_primitive(rep, src, rule, sites, why, minimum=1):
                 what, okay = norm(c)[:60], True
             if what is None:
                 continue
+            # the text that is cut is the text itself: a rewriting of it on the way (`text.replace('\r', '')`, translate, re.sub ...) changes
+            # the content of lines, not only where they end.  Accepted: the line-end normalisation replace('\r\n', '\n').
+            if norm(fn) in ('io.StringIO', 'StringIO'):
+                subject = c.args[0]
+            elif norm(fn) == 're.split':
+                subject = c.args[1] if len(c.args) > 1 else None
+            elif isinstance(fn, ast.Attribute) and c.args and isinstance(c.args[0], ast.Constant) and c.args[0].value in ('\n', b'\n'):
+                subject = fn.value                      # <text>.split('\n')
+            elif isinstance(fn, ast.Attribute) and fn.attr == 'split':
+                subject = c.args[0] if c.args else None  # <compiled pattern>.split(<text>)
+            else:
+                subject = None
+            rewritten = None
+            e_ = subject
+            while isinstance(e_, (ast.Call, ast.Attribute, ast.Subscript)):
+                if isinstance(e_, ast.Call) and isinstance(e_.func, ast.Attribute) and e_.func.attr in ('replace', 'translate', 'expandtabs', 'lower', 'upper', 'casefold', 'swapcase', 'title'):
+                    a_ = [x.value if isinstance(x, ast.Constant) else None for x in e_.args]
+                    if not (e_.func.attr == 'replace' and a_[:2] in (['\r\n', '\n'], [b'\r\n', b'\n'])):
+                        rewritten = norm(e_)[-50:]
+                if isinstance(e_, ast.Call) and norm(e_.func) in ('re.sub', 're.subn'):
+                    rewritten = norm(e_)[:50]
+                e_ = e_.func if isinstance(e_, ast.Call) else e_.value
+            if rewritten and okay:
+                found += 1
+                n += 1
+                rep.fail(rule, f.site, 'line primitive `%s`' % (('str.' + fn.attr + '()') if isinstance(fn, ast.Attribute) else norm(fn)),
+                         '%s: the text is rewritten before it is cut into lines (`%s`): characters inside a line are changed or removed, e.g. a carriage return in the middle '
+                         'of a line' % (why, rewritten), where='%s:%d' % (owner.module.relpath, c.lineno))
+                continue
             found += 1
             n += 1
             shown = what
@@ -270,3 +299,56 @@ def is_line_split(src, e):
                        for x in ast.walk(fn.node)):
                     return True
     return False
+
+
+def check_error_construction(rep, src, rule, modname, only=None, minimum=1):
+    """the error a refusal promises is the error that is raised: in `raise E(<format> % <values>)` the number of conversions of a literal
+    format equals the number of values, otherwise building the message raises TypeError and the caller sees that instead of E (a
+    fallback that catches E does not take place).  Decided where the right operand is a tuple display, or a single value that cannot be
+    a tuple: a constant, a call of len / int / str / repr, or a name that the function compares with a number or a length.
+    `only`: function qualnames to look at (default: every function of the module)"""
+    import re as _re
+    from ..core import norm, AnalysisError, walk_no_nested
+    mod = src.mod(modname)
+    conv = _re.compile(r'%(?:\((?P<key>[^)]*)\))?[#0\- +]*(?P<w>\*|\d+)?(?:\.(?P<p>\*|\d+))?[hlL]?(?P<c>[diouxXeEfFgGcrsa%])')
+    n = 0
+    for q, f in sorted(mod.funcs.items()):
+        if only is not None and q not in only:
+            continue
+        numeric = set()
+        for c in ast.walk(f.node):
+            if isinstance(c, ast.Compare) and len(c.ops) == 1 and isinstance(c.ops[0], (ast.Lt, ast.LtE, ast.Gt, ast.GtE)):
+                for a_, b_ in ((c.left, c.comparators[0]), (c.comparators[0], c.left)):
+                    if isinstance(a_, ast.Name) and ((isinstance(b_, ast.Constant) and isinstance(b_.value, (int, float)) and not isinstance(b_.value, bool))
+                                                     or (isinstance(b_, ast.Call) and norm(b_.func) == 'len')):
+                        numeric.add(a_.id)
+        for r_ in walk_no_nested(f.node):
+            if not (isinstance(r_, ast.Raise) and isinstance(r_.exc, ast.Call)):
+                continue
+            for a_ in r_.exc.args:
+                if not (isinstance(a_, ast.BinOp) and isinstance(a_.op, ast.Mod) and isinstance(a_.left, ast.Constant) and isinstance(a_.left.value, str)):
+                    continue
+                specs = [m_ for m_ in conv.finditer(a_.left.value) if m_.group('c') != '%']
+                if any(m_.group('key') is not None for m_ in specs):
+                    continue            # a mapping on the right
+                want = len(specs) + sum(1 for m_ in specs for g_ in ('w', 'p') if m_.group(g_) == '*')
+                rhs = a_.right
+                if isinstance(rhs, ast.Tuple) and not any(isinstance(e_, ast.Starred) for e_ in rhs.elts):
+                    have = len(rhs.elts)
+                elif isinstance(rhs, ast.Constant) or (isinstance(rhs, ast.Call) and norm(rhs.func) in ('len', 'int', 'str', 'repr', 'type')) \
+                        or (isinstance(rhs, ast.Name) and rhs.id in numeric) or isinstance(rhs, (ast.JoinedStr, ast.BinOp)):
+                    have = 1
+                else:
+                    continue            # a name that may hold a tuple: not decided
+                n += 1
+                what = 'message of `raise %s(...)`' % norm(r_.exc.func)
+                if have == want:
+                    rep.ok(rule, f.site, what, '%d conversion(s), %d value(s)' % (want, have), nontrivial=False)
+                else:
+                    rep.fail(rule, f.site, what, 'the format %r has %d conversion(s) and is given %d value(s)%s: building the message raises TypeError, so the refusal reaches the '
+                             'caller as TypeError instead of %s (and a handler for %s does not take its fallback)' % (
+                                 a_.left.value[:60], want, have, ' (the second value is an argument of the exception, not of the format)' if len(r_.exc.args) > 1 else '',
+                                 norm(r_.exc.func), norm(r_.exc.func)), where='%s:%d' % (mod.relpath, r_.lineno))
+    if n < minimum:
+        raise AnalysisError('%s: only %d error messages with a format examined' % (modname, n))
+    return n
